@@ -2,7 +2,8 @@
    files: the model at binary64, its environment filled from tables observed
    on the repository's own functions, against ParseMCNPCell.parse(). *)
 From Coq Require Import List NArith ZArith Bool String Ascii PrimFloat.
-From T4V Require Import Base.Str Base.Scalar Base.Cases C15.Model.
+From T4V Require Import Base.Str Base.Scalar Base.Cases C15.Model C15.Canon.
+From T4V Require C12.Exec.   (* float -> Z conversions (f_roundZ), read-only *)
 Import ListNotations.
 Open Scope string_scope.
 
@@ -25,7 +26,7 @@ Definition fl_close (a b : fl) : bool := list_eqb f_close9 a b.
 
 (* tables of the case *)
 Record tables := mkTables {
-  t_num : list (string * (option float * option Z * option Z * option Z));
+  t_num : list (string * (option float * option Z * option Z));
   t_tr : list (Z * fl);
   t_norm : list (fl * res fl);
   t_nf : list (string * string);
@@ -36,10 +37,10 @@ Record tables := mkTables {
 
 Definition env_of (t : tables) : env (T:=float) :=
   mkEnv
-    (fun s => match assoc String.eqb s (t_num t) with Some (f, _, _, _) => f | None => None end)
-    (fun s => match assoc String.eqb s (t_num t) with Some (_, z, _, _) => z | None => None end)
-    (fun s => match assoc String.eqb s (t_num t) with Some (_, _, z, _) => z | None => None end)
-    (fun s => match assoc String.eqb s (t_num t) with Some (_, _, _, z) => z | None => None end)
+    (fun s => match assoc String.eqb s (t_num t) with Some (f, _, _) => f | None => None end)
+    (fun s => match assoc String.eqb s (t_num t) with Some (_, z, _) => z | None => None end)
+    C12.Exec.f_roundZ
+    (fun s => match assoc String.eqb s (t_num t) with Some (_, _, z) => z | None => None end)
     (fun n => assoc Z.eqb n (t_tr t))
     (fun v => match assoc fl_close v (t_norm t) with Some r => r | None => Err ENoTable end)
     (fun s => match assoc String.eqb s (t_nf t) with Some r => r | None => "?no-table" end)
@@ -52,7 +53,7 @@ Definition zz_eqb (a b : Z * Z) : bool := pair_eqb Z.eqb Z.eqb a b.
 Definition fillid_eqb (a b : fillid) : bool :=
   match a, b with
   | FillU x, FillU y => Z.eqb x y
-  | FillLat b1 u1, FillLat b2 u2 => list_eqb zz_eqb b1 b2 && list_eqb Z.eqb u1 u2
+  | FillLat b1 u1, FillLat b2 u2 => list_eqb zz_eqb b1 b2 && list_eqb (option_eqb Z.eqb) u1 u2
   | _, _ => false
   end.
 
@@ -114,3 +115,52 @@ Definition diag_deck (c : tables * table * out) : list (Z * Z * list bool) * boo
        list_eqb Z.eqb s1 s2)
   | _, _ => ([], false)
   end.
+
+(* case (d): the explicit card constructed by Canon.canon_card for every card of
+   the deck (at word level and as text) parses, in the model, to the cell of the
+   LIKE card *)
+Fixpoint canon_cells (e : env (T:=float)) (tbl : table) (rank : nat) (todo : table)
+  : list (res (option (cell (T:=float) * cell (T:=float) * cell (T:=float)))) :=
+  match todo with
+  | [] => []
+  | (key, c) :: r => canon_cell FS e tbl rank key c :: canon_cells e tbl (S rank) r
+  end.
+
+Definition canon_ok (x : res (option (cell (T:=float) * cell (T:=float) * cell (T:=float)))) : bool :=
+  match x with
+  | Ok None => true
+  | Ok (Some (a, b, c)) => cell_eqb a b && cell_eqb a c
+  | Err EKey | Err EFuel => true          (* the chain itself does not resolve *)
+  | Err _ => false
+  end.
+
+Definition check_canon (c : tables * table * out) : bool :=
+  let '(t, tbl, _) := c in forallb canon_ok (canon_cells (env_of t) tbl O tbl).
+
+(* informational: the construction is defined for every card of the deck *)
+Definition canon_defined (c : tables * table * out) : bool :=
+  let '(t, tbl, _) := c in
+  forallb (fun x => match x with Ok (Some _) => true | _ => false end)
+          (canon_cells (env_of t) tbl O tbl).
+
+(* case (e): the constructed cards as text, for the harness to hand them to the
+   implementation: one line "key|material|geometry|options" per card whose
+   construction is defined *)
+Definition nl : string := String (ascii_of_N 10) EmptyString.
+
+Fixpoint canon_dump_cells (e : env (T:=float)) (tbl todo : table) : string :=
+  match todo with
+  | [] => EmptyString
+  | (key, c) :: r =>
+      (match resolve_like (List.length tbl) tbl c with
+       | Ok x => match canon_card FS e x with
+                 | Ok w => let '(m, g, o) := card_text w in
+                           dec_Z key ++ "|" ++ m ++ "|" ++ g ++ "|" ++ o ++ nl
+                 | Err _ => EmptyString
+                 end
+       | Err _ => EmptyString
+       end) ++ canon_dump_cells e tbl r
+  end.
+
+Definition canon_dump (c : tables * table * out) : string :=
+  let '(t, tbl, _) := c in canon_dump_cells (env_of t) tbl tbl.
